@@ -1,1 +1,279 @@
-fn main() {}
+//! C27: partition-value pruning of listing tables never drops matching files.
+//! Kinds of lines:
+//!  "prefix": evaluate_partition_prefix(cols, filters)            (model-compared)
+//!  "pruned": pruned_partition_list over an in-memory layout       (model-compared + oracle)
+//!  "parse":  parse_partitions_for_path                            (model-compared)
+//!  "sql":    ListingTable scan through SQL with arbitrary filters (oracle only)
+use std::sync::Arc;
+
+use arrow::datatypes::{DataType, Field, Schema};
+use bytes::Bytes;
+use datafusion::datasource::file_format::csv::CsvFormat;
+use datafusion::datasource::listing::helpers::{evaluate_partition_prefix, parse_partitions_for_path, pruned_partition_list};
+use datafusion::datasource::listing::{ListingOptions, ListingTable, ListingTableConfig, ListingTableUrl};
+use datafusion::prelude::*;
+use datafusion_common::ScalarValue;
+use futures::TryStreamExt;
+use h_util::{arg, json_str, Rng};
+use object_store::memory::InMemory;
+use object_store::path::Path;
+use object_store::{ObjectStore, ObjectStoreExt, PutPayload};
+
+#[derive(Clone, Debug)]
+enum Lit { I(i32), S(String) }
+
+fn lit_expr(l: &Lit) -> Expr {
+    match l { Lit::I(i) => lit(ScalarValue::Int32(Some(*i))), Lit::S(s) => lit(ScalarValue::Utf8(Some(s.clone()))) }
+}
+fn lit_json(l: &Lit) -> String {
+    match l { Lit::I(i) => format!("{{\"i\":{i}}}"), Lit::S(s) => format!("{{\"s\":{}}}", json_str(s)) }
+}
+fn lit_sql(l: &Lit) -> String {
+    match l { Lit::I(i) => format!("{i}"), Lit::S(s) => format!("'{}'", s.replace('\'', "''")) }
+}
+
+const INT_DIRS: &[&str] = &["1", "01", "+1", "2", "10", "-3", "0", "00", "007"];
+const STR_DIRS: &[&str] = &["foo", "bar", "a%20b", "a%2Fb", "x.y", "Foo", "1", "01", "a%3Fb", "100%25"];
+// directory names that percent-encode a character that needs no encoding (non-canonical spelling)
+const STR_DIRS_OVER: &[&str] = &["%66oo", "b%61r", "x%2Ey"];
+const INT_LITS: &[i32] = &[1, 2, 10, 0, -3, 7, 5];
+const STR_LITS: &[&str] = &["foo", "bar", "a b", "a/b", "x.y", "Foo", "1", "01", "a?b", "100%", "zzz"];
+
+fn pct_decode(s: &str) -> String {
+    let b = s.as_bytes();
+    let mut out = vec![];
+    let mut i = 0;
+    while i < b.len() {
+        if b[i] == b'%' && i + 2 < b.len() {
+            let h = (b[i + 1] as char).to_digit(16);
+            let l = (b[i + 2] as char).to_digit(16);
+            if let (Some(h), Some(l)) = (h, l) { out.push((h * 16 + l) as u8); i += 3; continue; }
+        }
+        out.push(b[i]);
+        i += 1;
+    }
+    String::from_utf8(out).unwrap_or_else(|_| s.to_string())
+}
+
+/// does the directory text denote the literal's value at the column type? (independent oracle)
+fn dir_equals(ty: &DataType, dir: &str, l: &Lit) -> bool {
+    let v = pct_decode(dir);
+    match (ty, l) {
+        (DataType::Int32, Lit::I(i)) => v.parse::<i32>().map(|x| x == *i).unwrap_or(false),
+        (DataType::Utf8, Lit::S(s)) => v == *s,
+        _ => false,
+    }
+}
+
+struct Layout {
+    cols: Vec<(String, DataType)>,
+    files: Vec<(Vec<String>, String)>, // (directory value texts per column, file name)
+}
+
+fn gen_layout(rng: &mut Rng, over: bool) -> Layout {
+    let ncols = 1 + rng.below(3) as usize;
+    let names = ["a", "month", "c"];
+    let cols: Vec<(String, DataType)> = (0..ncols).map(|i| (names[i].to_string(), if rng.chance(1, 2) { DataType::Int32 } else { DataType::Utf8 })).collect();
+    let nfiles = 1 + rng.below(7) as usize;
+    let mut files = vec![];
+    for i in 0..nfiles {
+        let dirs: Vec<String> = cols.iter().map(|(_, t)| match t {
+            DataType::Int32 => rng.pick(INT_DIRS).to_string(),
+            _ => if over && rng.chance(1, 3) { rng.pick(STR_DIRS_OVER).to_string() } else { rng.pick(STR_DIRS).to_string() },
+        }).collect();
+        files.push((dirs, format!("f{i}.csv")));
+    }
+    Layout { cols, files }
+}
+
+fn gen_atoms(rng: &mut Rng, l: &Layout) -> Vec<(String, Lit)> {
+    let n = rng.below(4) as usize;
+    (0..n).map(|_| {
+        let ci = rng.below(l.cols.len() as u64) as usize;
+        let (name, t) = l.cols[ci].clone();
+        // two thirds of the literals denote the value of an existing directory, so that filters match
+        let from_file = rng.chance(2, 3);
+        let dir = rng.pick(&l.files).0[ci].clone();
+        let lt = match t {
+            DataType::Int32 => match (from_file, pct_decode(&dir).parse::<i32>()) { (true, Ok(v)) => Lit::I(v), _ => Lit::I(*rng.pick(INT_LITS)) },
+            _ => if from_file { Lit::S(pct_decode(&dir)) } else { Lit::S(rng.pick(STR_LITS).to_string()) },
+        };
+        (name, lt)
+    }).collect()
+}
+
+fn atoms_to_filters(rng: &mut Rng, atoms: &[(String, Lit)]) -> Vec<Expr> {
+    // randomly spread the conjunction over several filters / nested ANDs / flipped operands
+    let mut exprs: Vec<Expr> = atoms.iter().map(|(c, l)| if rng.chance(1, 3) { lit_expr(l).eq(col(c.as_str())) } else { col(c.as_str()).eq(lit_expr(l)) }).collect();
+    let mut out = vec![];
+    while !exprs.is_empty() {
+        let k = 1 + rng.below(exprs.len() as u64) as usize;
+        let chunk: Vec<Expr> = exprs.drain(..k).collect();
+        out.push(chunk.into_iter().reduce(|a, b| a.and(b)).unwrap());
+    }
+    out
+}
+
+fn cols_json(cols: &[(String, DataType)]) -> String {
+    let v: Vec<String> = cols.iter().map(|(n, t)| format!("[{},\"{}\"]", json_str(n), if *t == DataType::Int32 { "int" } else { "str" })).collect();
+    format!("[{}]", v.join(","))
+}
+fn atoms_json(atoms: &[(String, Lit)]) -> String {
+    let v: Vec<String> = atoms.iter().map(|(n, l)| format!("[{},{}]", json_str(n), lit_json(l))).collect();
+    format!("[{}]", v.join(","))
+}
+fn segs(cols: &[(String, DataType)], f: &(Vec<String>, String)) -> Vec<String> {
+    let mut v: Vec<String> = cols.iter().zip(f.0.iter()).map(|((n, _), d)| format!("{n}={d}")).collect();
+    v.push(f.1.clone());
+    v
+}
+fn files_json(cols: &[(String, DataType)], files: &[(Vec<String>, String)]) -> String {
+    let v: Vec<String> = files.iter().map(|f| format!("[{}]", segs(cols, f).iter().map(|s| json_str(s)).collect::<Vec<_>>().join(","))).collect();
+    format!("[{}]", v.join(","))
+}
+
+async fn make_store(l: &Layout) -> Arc<InMemory> {
+    let store = Arc::new(InMemory::new());
+    for (i, f) in l.files.iter().enumerate() {
+        let p = Path::parse(format!("tbl/{}", segs(&l.cols, f).join("/"))).expect("valid stored path");
+        store.put(&p, PutPayload::from(Bytes::from(format!("x\n{}\n{}\n", i * 2, i * 2 + 1)))).await.unwrap();
+    }
+    store
+}
+
+fn main() {
+    std::panic::set_hook(Box::new(|_| {}));
+    let args: Vec<String> = std::env::args().collect();
+    let seed: u64 = arg(&args, "--seed", "1").parse().unwrap();
+    let n: usize = arg(&args, "--n", "300").parse().unwrap();
+    let mut rng = Rng::new(seed);
+    let rt = tokio::runtime::Builder::new_multi_thread().worker_threads(2).enable_all().build().unwrap();
+
+    // ---- prefix + pruned
+    for h in 0..n {
+        let over = h % 10 == 9;
+        let l = gen_layout(&mut rng, over);
+        let atoms = gen_atoms(&mut rng, &l);
+        let filters = atoms_to_filters(&mut rng, &atoms);
+        let prefix = evaluate_partition_prefix(&l.cols, &filters);
+        let parts: Vec<String> = prefix.as_ref().map(|p| p.parts().map(|x| x.as_ref().to_string()).collect()).unwrap_or_default();
+        println!("{{\"k\":\"prefix\",\"cols\":{},\"atoms\":{},\"parts\":[{}],\"ok\":true}}", cols_json(&l.cols), atoms_json(&atoms), parts.iter().map(|s| json_str(s)).collect::<Vec<_>>().join(","));
+
+        let ctx = SessionContext::new();
+        let state = ctx.state();
+        let res: Result<Vec<String>, String> = rt.block_on(async {
+            let store = make_store(&l).await;
+            let url = ListingTableUrl::parse("memory:///tbl/").map_err(|e| e.to_string())?;
+            let s = pruned_partition_list(&state, store.as_ref(), &url, &filters, ".csv", &l.cols).await.map_err(|e| e.to_string())?;
+            let v: Vec<_> = s.try_collect().await.map_err(|e| e.to_string())?;
+            Ok(v.into_iter().map(|pf| pf.object_meta.location.as_ref().to_string()).collect())
+        });
+        match res {
+            Ok(mut kept) => {
+                kept.sort();
+                // oracle: every file whose directory values satisfy all atoms must be listed (and no other)
+                let mut expect: Vec<String> = l.files.iter().filter(|f| {
+                    atoms.iter().all(|(c, lt)| {
+                        let i = l.cols.iter().position(|(n, _)| n == c).unwrap();
+                        dir_equals(&l.cols[i].1, &f.0[i], lt)
+                    })
+                }).map(|f| format!("tbl/{}", segs(&l.cols, f).join("/"))).collect();
+                expect.sort();
+                let missing: Vec<&String> = expect.iter().filter(|e| !kept.contains(e)).collect();
+                let extra: Vec<&String> = kept.iter().filter(|e| !expect.contains(e)).collect();
+                let ok = missing.is_empty() && extra.is_empty();
+                // a dropped file under an over-encoded directory name is the listed known finding
+                let overenc = !missing.is_empty() && missing.iter().all(|m| STR_DIRS_OVER.iter().any(|d| m.contains(&format!("={d}/"))));
+                let why = if ok { String::new() } else { format!("missing {:?} extra {:?}", missing, extra) };
+                let keptsegs: Vec<String> = kept.iter().map(|k| format!("[{}]", k.trim_start_matches("tbl/").split('/').map(json_str).collect::<Vec<_>>().join(","))).collect();
+                // the model compares in listing order = sorted path order of InMemory; send files sorted the same way
+                let mut sorted_files = l.files.clone();
+                sorted_files.sort_by_key(|f| format!("tbl/{}", segs(&l.cols, f).join("/")));
+                println!("{{\"k\":\"pruned\",\"over\":{over},\"cols\":{},\"atoms\":{},\"files\":{},\"kept\":[{}],\"ok\":{ok},\"overencoded_only\":{overenc},\"why\":{}}}",
+                    cols_json(&l.cols), atoms_json(&atoms), files_json(&l.cols, &sorted_files), keptsegs.join(","), json_str(&why));
+            }
+            Err(e) => {
+                println!("{{\"k\":\"pruned\",\"over\":{over},\"cols\":{},\"atoms\":{},\"files\":{},\"error\":{},\"ok\":false,\"overencoded_only\":false,\"why\":{}}}",
+                    cols_json(&l.cols), atoms_json(&atoms), files_json(&l.cols, &l.files), json_str(&e), json_str(&format!("listing failed: {e}")));
+            }
+        }
+    }
+
+    // ---- parse_partitions_for_path
+    for _ in 0..n {
+        let l = gen_layout(&mut rng, false);
+        let url = ListingTableUrl::parse("memory:///tbl/").unwrap();
+        let f = rng.pick(&l.files).clone();
+        let mut sg = segs(&l.cols, &f);
+        // sometimes break the layout: wrong column name, missing directory, extra directory
+        match rng.below(8) { 0 => { sg[0] = format!("zz={}", f.0[0]); } 1 => { sg.remove(0); } 2 => { sg.insert(0, "extra".to_string()); } _ => {} }
+        let p = Path::parse(format!("tbl/{}", sg.join("/"))).unwrap();
+        let got = parse_partitions_for_path(&url, &p, l.cols.iter().map(|(n, _)| n.as_str()));
+        let gj = match &got { Some(v) => format!("[{}]", v.iter().map(|s| json_str(s)).collect::<Vec<_>>().join(",")), None => "null".to_string() };
+        // oracle: on an intact layout the parsed values are the decoded directory values
+        let intact = sg == segs(&l.cols, &f);
+        let ok = !intact || got.as_ref().map(|v| v.iter().map(|s| s.to_string()).collect::<Vec<_>>()) == Some(f.0.iter().map(|d| pct_decode(d)).collect());
+        println!("{{\"k\":\"parse\",\"cols\":{},\"file\":[{}],\"got\":{gj},\"ok\":{ok}}}", cols_json(&l.cols), sg.iter().map(|s| json_str(s)).collect::<Vec<_>>().join(","));
+    }
+
+    // ---- SQL through ListingTable with arbitrary filters (oracle: filtered scan == scan then filter)
+    for h in 0..n / 3 {
+        let l = gen_layout(&mut rng, false);
+        let (c0, t0) = l.cols[0].clone();
+        let l0 = match t0 { DataType::Int32 => Lit::I(*rng.pick(INT_LITS)), _ => Lit::S(rng.pick(STR_LITS).to_string()) };
+        let (c1, t1) = rng.pick(&l.cols).clone();
+        let l1 = match t1 { DataType::Int32 => Lit::I(*rng.pick(INT_LITS)), _ => Lit::S(rng.pick(STR_LITS).to_string()) };
+        let pred = match rng.below(7) {
+            0 => format!("{c0} = {}", lit_sql(&l0)),
+            1 => format!("{c0} = {} AND {c1} = {}", lit_sql(&l0), lit_sql(&l1)),
+            2 => format!("{c0} = {} AND x >= 2", lit_sql(&l0)),
+            3 => format!("{c0} IN ({}, {})", lit_sql(&l0), lit_sql(&l1_same_type(&t0, &mut rng))),
+            4 => format!("{c0} = {} OR {c1} = {}", lit_sql(&l0), lit_sql(&l1)),
+            5 => format!("{c0} >= {}", lit_sql(&l0)),
+            _ => format!("{} = {c0} AND {c1} <> {}", lit_sql(&l0), lit_sql(&l1)),
+        };
+        let res: Result<(Vec<String>, Vec<String>), String> = rt.block_on(async {
+            let ctx = SessionContext::new();
+            let store = make_store(&l).await;
+            ctx.register_object_store(&url::Url::parse("memory://").unwrap(), store);
+            let opts = ListingOptions::new(Arc::new(CsvFormat::default().with_has_header(true)))
+                .with_file_extension(".csv")
+                .with_table_partition_cols(l.cols.clone());
+            let schema = Arc::new(Schema::new(vec![Field::new("x", DataType::Int64, true)]));
+            let cfg = ListingTableConfig::new(ListingTableUrl::parse("memory:///tbl/").map_err(|e| e.to_string())?)
+                .with_listing_options(opts).with_schema(schema);
+            let table = ListingTable::try_new(cfg).map_err(|e| e.to_string())?;
+            ctx.register_table("t", Arc::new(table)).map_err(|e| e.to_string())?;
+            let colsel = l.cols.iter().map(|(n, _)| n.clone()).collect::<Vec<_>>().join(", ");
+            // all rows, materialised into a memory table, then filtered there
+            let all = ctx.sql(&format!("SELECT x, {colsel} FROM t")).await.map_err(|e| e.to_string())?.collect().await.map_err(|e| e.to_string())?;
+            let sch = all.first().map(|b| b.schema()).ok_or("no batches")?;
+            let mem = datafusion::datasource::MemTable::try_new(sch, vec![all]).map_err(|e| e.to_string())?;
+            ctx.register_table("m", Arc::new(mem)).map_err(|e| e.to_string())?;
+            let fmt = |bs: Vec<arrow::record_batch::RecordBatch>| -> Vec<String> {
+                let mut rows = vec![];
+                for b in bs { for r in 0..b.num_rows() {
+                    rows.push((0..b.num_columns()).map(|c| arrow::util::display::array_value_to_string(b.column(c), r).unwrap()).collect::<Vec<_>>().join("|"));
+                } }
+                rows.sort();
+                rows
+            };
+            let a = ctx.sql(&format!("SELECT x, {colsel} FROM t WHERE {pred}")).await.map_err(|e| e.to_string())?.collect().await.map_err(|e| e.to_string())?;
+            let b = ctx.sql(&format!("SELECT x, {colsel} FROM m WHERE {pred}")).await.map_err(|e| e.to_string())?.collect().await.map_err(|e| e.to_string())?;
+            Ok((fmt(a), fmt(b)))
+        });
+        let desc = format!("cols={} files={} WHERE {pred}", cols_json(&l.cols), files_json(&l.cols, &l.files));
+        match res {
+            Ok((a, b)) => {
+                let ok = a == b;
+                println!("{{\"k\":\"sql\",\"h\":{h},\"desc\":{},\"rows_pruned\":{},\"rows_scan_then_filter\":{},\"ok\":{ok},\"why\":{}}}", json_str(&desc), a.len(), b.len(),
+                    json_str(&if ok { String::new() } else { format!("listing-table result {:?} != scan-all-then-filter {:?}", a, b) }));
+            }
+            Err(e) => println!("{{\"k\":\"sql\",\"h\":{h},\"desc\":{},\"error\":{},\"ok\":true,\"why\":\"\"}}", json_str(&desc), json_str(&e)),
+        }
+    }
+}
+
+fn l1_same_type(t: &DataType, rng: &mut Rng) -> Lit {
+    match t { DataType::Int32 => Lit::I(*rng.pick(INT_LITS)), _ => Lit::S(rng.pick(STR_LITS).to_string()) }
+}
